@@ -8,8 +8,9 @@ PID = "C16"
 PROPS_MODULE = "Props.C16"
 THEOREMS = ["default_all_diagrams_correct", "graph_ok_meaning", "layers_are_children", "positions_always_distinct",
             "distinct_pos_spec"]
-REQUIRED = ["Props/C16.v", "Proofs/CertDefault/Graphs.v"]
-TRANSLATORS = ["tr_data", "tr_tables"]
+EXTRA_PROPS = {"Props.C16s": ["synth_all_diagrams_correct"]}
+REQUIRED = ["Proofs/CertSynth/SynthGraphs.v", "Props/C16s.v", "Props/C16.v", "Proofs/CertDefault/Graphs.v"]
+TRANSLATORS = ["synth_dataset", "tr_data_synth", "tr_data", "tr_tables"]
 SHAPE_KEYS = ["_build_decay_digraph", "_parse_nuclide_label", "_parse_decay_mode_label", "Nuclide::plot", "Nuclide::progeny",
               "Nuclide::branching_fractions", "Nuclide::decay_modes", "DecayData::half_life"]
 PARTIAL = ["the breadth-first construction is hand-modelled (Model/Digraph.v): tie = recorded source text + identical output for ALL roots",
@@ -27,10 +28,11 @@ EXTRACT = os.path.join(C.COQ, "Extract")
 def build_gdriver():
     with C.Lock("extract_graph"):
         vo = os.path.join(C.COQ, "Proofs", "CertDefault", "Graphs.vo")
+        vo2 = os.path.join(C.COQ, "Proofs", "CertSynth", "SynthGraphs.vo")
         drv = os.path.join(EXTRACT, "gdriver")
         if not os.path.exists(vo):
             return False, "Proofs/CertDefault/Graphs.vo missing"
-        if os.path.exists(drv) and os.path.getmtime(drv) >= max(os.path.getmtime(vo), os.path.getmtime(os.path.join(EXTRACT, "gdriver.ml"))):
+        if os.path.exists(drv) and os.path.exists(vo2) and os.path.getmtime(drv) >= max(os.path.getmtime(vo), os.path.getmtime(vo2), os.path.getmtime(os.path.join(EXTRACT, "gdriver.ml")), os.path.getmtime(os.path.join(EXTRACT, "extract_graph.v"))):
             return True, "up to date"
         rc, out = C.sh("coqc -Q .. RD extract_graph.v", cwd=EXTRACT, timeout=900)
         if rc != 0:
@@ -69,87 +71,93 @@ def correspondence(ctx):
         viol.append({"name": "extract-graph", "found_input": False, "key": "extract-graph",
                      "payload": {"broken": "the diagram model could not be extracted/compiled", "message": msg}})
         return {"streams": streams, "violations": viol}
-    model = subprocess.run([os.path.join(EXTRACT, "gdriver")], stdout=subprocess.PIPE, text=True).stdout
-    p = subprocess.run([C.PY, os.path.join(C.TOOLS, "impl_digraph.py"), "plot", "100" if thorough else "12"],
-                       stdout=subprocess.PIPE, stderr=subprocess.PIPE, text=True, env=C.IMPL_ENV, cwd="/tmp")
-    impl = p.stdout
-    gm, gi = parse(model), parse(impl)
-    d = np.load(os.path.join(C.REPO, "radioactivedecay/icrp107_ame2020_nubase2020/decay_data.npz"), allow_pickle=True)
-    names = [str(x) for x in d["nuclides"]]
-    progeny = {n: [str(x) for x in pl] for n, pl in zip(names, d["progeny"])}
-    bad_prop, ndis = [], 0
-    for root in names:
-        key = ".".join(str(ord(c)) for c in root)
-        g = gi.get(key)
-        if g is None or "ERR" in " ".join(g["raw"][:1]):
-            bad_prop.append((root, "the diagram could not be built"))
-            continue
-        # independent breadth-first search over the data file
-        depth = {root: 0}
-        frontier = [root]
-        while frontier:
-            nxt = []
-            for x in frontier:
-                for c in progeny.get(x, []):
-                    if c != "SF" and c in progeny and c not in depth:
-                        depth[c] = depth[x] + 1
-                        nxt.append(c)
-            frontier = nxt
-        nodes = {dec(n): (gen, x) for n, gen, x, _ in g["N"]}
-        real = {n for n in nodes if not n.endswith("_SF")}
-        if real != set(depth):
-            bad_prop.append((root, f"nodes differ from the reachable set: missing {sorted(set(depth) - real)[:3]}, extra {sorted(real - set(depth))[:3]}"))
-        for n in real & set(depth):
-            if nodes[n][0] != depth[n]:
-                bad_prop.append((root, f"{n} sits on row {nodes[n][0]} but its minimum number of decays from the root is {depth[n]}"))
+    def run_ds(ds):
+        model = subprocess.run([os.path.join(EXTRACT, "gdriver")] + ([ds] if ds else []), stdout=subprocess.PIPE, text=True).stdout
+        p = subprocess.run([C.PY, os.path.join(C.TOOLS, "impl_digraph.py"), "plot", "100" if thorough else "12"],
+                           stdout=subprocess.PIPE, stderr=subprocess.PIPE, text=True, env=dict(C.IMPL_ENV, VERIF_DIGRAPH_DS=ds or ""), cwd="/tmp")
+        impl = p.stdout
+        gm, gi = parse(model), parse(impl)
+        d = np.load(os.path.join(C.SCRATCH, "synth", "decay_data.npz") if ds else
+                    os.path.join(C.REPO, "radioactivedecay/icrp107_ame2020_nubase2020/decay_data.npz"), allow_pickle=True)
+        tag = "diagrams" + ("_" + ds if ds else "")
+        names = [str(x) for x in d["nuclides"]]
+        progeny = {n: [str(x) for x in pl] for n, pl in zip(names, d["progeny"])}
+        bad_prop, ndis = [], 0
+        for root in names:
+            key = ".".join(str(ord(c)) for c in root)
+            g = gi.get(key)
+            if g is None or "ERR" in " ".join(g["raw"][:1]):
+                bad_prop.append((root, "the diagram could not be built"))
+                continue
+            # independent breadth-first search over the data file
+            depth = {root: 0}
+            frontier = [root]
+            while frontier:
+                nxt = []
+                for x in frontier:
+                    for c in progeny.get(x, []):
+                        if c != "SF" and c in progeny and c not in depth:
+                            depth[c] = depth[x] + 1
+                            nxt.append(c)
+                frontier = nxt
+            nodes = {dec(n): (gen, x) for n, gen, x, _ in g["N"]}
+            real = {n for n in nodes if not n.endswith("_SF")}
+            if real != set(depth):
+                bad_prop.append((root, f"nodes differ from the reachable set: missing {sorted(set(depth) - real)[:3]}, extra {sorted(real - set(depth))[:3]}"))
+            for n in real & set(depth):
+                if nodes[n][0] != depth[n]:
+                    bad_prop.append((root, f"{n} sits on row {nodes[n][0]} but its minimum number of decays from the root is {depth[n]}"))
+                    break
+            pos = [(gen, x) for _, gen, x, _ in g["N"]]
+            if len(set(pos)) != len(pos) or "BADPOS" in g["raw"]:
+                bad_prop.append((root, "two nodes share a position"))
+            links = set()
+            for x in depth:
+                for c, bf, m in zip(progeny[x], d["bfs"][names.index(x)], d["modes"][names.index(x)]):
+                    links.add((x, x + "_SF" if c == "SF" else c, repr(float(bf))))
+            edges = set()
+            for u, v, lab in g["E"]:
+                lab = dec(lab)
+                if "\n" not in lab:
+                    bad_prop.append((root, f"edge label {lab!r} malformed")); break
+                edges.add((dec(u), dec(v), lab.split("\n")[1]))
+            if edges != links or len(g["E"]) != len(links):
+                bad_prop.append((root, f"edges differ from the links of the reachable nuclides: {sorted(links ^ edges)[:2]}"))
+            sf_nodes = [n for n in nodes if n.endswith("_SF")]
+            if len(sf_nodes) != sum(1 for x in depth for c in progeny[x] if c == "SF"):
+                bad_prop.append((root, "number of 'various' nodes differs from the number of fission branches"))
+            if gm.get(key, {}).get("raw") != g["raw"]:
+                ndis += 1
+                if ndis <= 2:
+                    viol.append({"name": f"{tag}-graph-model-{ndis}", "found_input": False, "key": f"graph-model:{root}",
+                                 "payload": {"broken": "diagram model and implementation produce different graphs", "root": root,
+                                             "impl": g["raw"][:6], "model": gm.get(key, {}).get("raw", [])[:6]}})
+        plot_bad = []
+        for line in p.stderr.splitlines():
+            if line.startswith("PLOTCHECK "):
+                import json
+                plot_bad = json.loads(line[10:])
+        for r in plot_bad[:2]:
+            bad_prop.append((r, "texts on the drawn axes differ from the node and edge labels"))
+        streams[tag] = {"cases": len(names), "exhaustive": True, "model_disagrees": ndis, "impl_property_failures": len(bad_prop),
+                               "nodes_total": sum(len(g["N"]) for g in gi.values()), "edges_total": sum(len(g["E"]) for g in gi.values()),
+                               "drawn": 100 if thorough else 12,
+                               "what": ("synthetic data set (fission branches, states p q r x), all roots: " if ds else "all 1512 roots: ") + " implementation graph == extracted model graph (nodes, attributes, labels, edges, order); independent "
+                                       "reachability / breadth-first depth / link / position checks on the implementation's graph; drawn axes texts on a sample"}
+        seen = set()
+        for root, why in bad_prop:
+            k = why.split(":")[0][:40]
+            if k in seen:
+                continue
+            seen.add(k)
+            viol.append({"name": f"{tag}-{len(seen)}", "found_input": True, "key": f"diagram:{root}:{k}",
+                         "payload": {"fails": why, "input": root, "entry": "Nuclide(root).plot() / nuclide._build_decay_digraph"}})
+            if len(seen) >= 4:
                 break
-        pos = [(gen, x) for _, gen, x, _ in g["N"]]
-        if len(set(pos)) != len(pos) or "BADPOS" in g["raw"]:
-            bad_prop.append((root, "two nodes share a position"))
-        links = set()
-        for x in depth:
-            for c, bf, m in zip(progeny[x], d["bfs"][names.index(x)], d["modes"][names.index(x)]):
-                links.add((x, x + "_SF" if c == "SF" else c, repr(float(bf))))
-        edges = set()
-        for u, v, lab in g["E"]:
-            lab = dec(lab)
-            if "\n" not in lab:
-                bad_prop.append((root, f"edge label {lab!r} malformed")); break
-            edges.add((dec(u), dec(v), lab.split("\n")[1]))
-        if edges != links or len(g["E"]) != len(links):
-            bad_prop.append((root, f"edges differ from the links of the reachable nuclides: {sorted(links ^ edges)[:2]}"))
-        sf_nodes = [n for n in nodes if n.endswith("_SF")]
-        if len(sf_nodes) != sum(1 for x in depth for c in progeny[x] if c == "SF"):
-            bad_prop.append((root, "number of 'various' nodes differs from the number of fission branches"))
-        if gm.get(key, {}).get("raw") != g["raw"]:
-            ndis += 1
-            if ndis <= 2:
-                viol.append({"name": f"graph-model-{ndis}", "found_input": False, "key": f"graph-model:{root}",
-                             "payload": {"broken": "diagram model and implementation produce different graphs", "root": root,
-                                         "impl": g["raw"][:6], "model": gm.get(key, {}).get("raw", [])[:6]}})
-    plot_bad = []
-    for line in p.stderr.splitlines():
-        if line.startswith("PLOTCHECK "):
-            import json
-            plot_bad = json.loads(line[10:])
-    for r in plot_bad[:2]:
-        bad_prop.append((r, "texts on the drawn axes differ from the node and edge labels"))
-    streams["diagrams"] = {"cases": len(names), "exhaustive": True, "model_disagrees": ndis, "impl_property_failures": len(bad_prop),
-                           "nodes_total": sum(len(g["N"]) for g in gi.values()), "edges_total": sum(len(g["E"]) for g in gi.values()),
-                           "drawn": 100 if thorough else 12,
-                           "what": "all 1512 roots: implementation graph == extracted model graph (nodes, attributes, labels, edges, order); independent "
-                                   "reachability / breadth-first depth / link / position checks on the implementation's graph; drawn axes texts on a sample"}
-    seen = set()
-    for root, why in bad_prop:
-        k = why.split(":")[0][:40]
-        if k in seen:
-            continue
-        seen.add(k)
-        viol.append({"name": f"diagram-{len(seen)}", "found_input": True, "key": f"diagram:{root}:{k}",
-                     "payload": {"fails": why, "input": root, "entry": "Nuclide(root).plot() / nuclide._build_decay_digraph"}})
-        if len(seen) >= 4:
-            break
-    samples.append({"root": "Mo-99", "nodes": [(dec(n), g_, x) for n, g_, x, _ in gi.get(".".join(str(ord(c)) for c in "Mo-99"), {"N": []})["N"]]})
+        if not ds:
+          samples.append({"root": "Mo-99", "nodes": [(dec(n), g_, x) for n, g_, x, _ in gi.get(".".join(str(ord(c)) for c in "Mo-99"), {"N": []})["N"]]})
+    run_ds(None)
+    run_ds("synth")
     return {"streams": streams, "violations": viol, "samples": samples}
 
 
